@@ -25,15 +25,28 @@ MANIFEST = dict(
         "dataset token theorems), remora::vector and remora::matrix load correctly into ANY old object (vecLoad_roundtrip, "
         "matLoad_roundtrip). The correspondence compares the payload token stream of the real write (recording archive) with the "
         "generated encoder token by token, and runs 72 of the 108 classes (all dataset kinds incl. weighted and DataView-converted, "
-        "20 model classes incl. trainer-produced, 13 kernel classes incl. composites, kernel expansions dense/sparse/composite, "
-        "18 optimizers after every step index 0..6 (thorough 0..25)) through write -> read into a used target -> read another state -> "
-        "read twice -> second generation -> byte-equal rewritten archive, in polymorphic text and binary archives."),
+        "21 model classes incl. trainer-produced, 13 kernel classes incl. composites, kernel expansions dense/sparse/composite, "
+        "all 22 optimizer and all 19 operator classes, result sets, decompositions, compressed vectors; optimizers after every step "
+        "index 0..6 (thorough 0..25)) through write -> read into a used target -> read another state -> read twice -> second "
+        "generation -> byte-equal rewritten archive, in polymorphic text and binary archives — 100 of the 109 classes. "
+        "Object sharing: several objects that share batch objects in ONE archive (labels = inputs, a data set and its copy, a "
+        "subset, a set appended to itself, two labelled sets with the same inputs; dense and sparse; text and binary) are modelled "
+        "with pointer identity (writePtrs/readPtrs/writeConts/readConts: an object is written once, later occurrences are back "
+        "references) and proved to round-trip with values AND sharing pattern preserved for every sharing pattern "
+        "(readPtrs_writePtrs, shared_values, shared_identity, readConts_writeConts); the recording archive emits the pointer tokens "
+        "and the streams are compared. The dependency lists of 23 classes are cross-checked against clang's AST member references. "
+        "If the translator rejects the source or an obligation breaks, the harness still runs alone with its oracle (core.oracle_only)."),
   note=TRUST + "boost.serialization (bytes, pointer tracking, its bookkeeping tokens) is not modelled; the type table CODEC_CLASSES (which "
        "codec a C++ member type denotes) and the three pinned serialize bodies (vector, matrix, compressed_matrix_impl: modelled by "
        "hand, pinned by text) are reviewed knowledge; that a member's VALUE determines behaviour the way the C++ uses it is exercised "
-       "by the harness on the 72 round-tripped classes only — the evidence lists the 36 classes not round-tripped (hypervolume and "
-       "indicator operators, GridSearch family, MklKernel, GaussianTaskKernel, OneVersusOneClassifier (needs export registration), "
-       "OptimizationTrainer, result sets, decompositions, triangular_matrix, compressed_vector/MOEAD/RVEA while findings F-C18-2/3 are open); "
+       "by the harness on the 100 round-tripped classes only. Not round-tripped (9): AbstractModel (abstract base, empty default read/write, "
+       "reached through every model); CSvmDerivative (read/write deliberately empty: a cache over an external KernelExpansion, not "
+       "serializable by design); triangular_matrix (its header includes a file that does not exist: cannot be compiled); "
+       "OptimizationTrainer (archives nothing of its own, only external pointers to loss/optimizer/stopping criterion); "
+       "BipolarLayer, GaussianTaskKernel + MultiTaskSample, MklKernelWrapper, ResultTable: constructible, not brought in for lack "
+       "of time (BipolarLayer is field-for-field BinaryLayer without base rate; the MKL/multi-task kernels need tuple/dataset rigs). "
+       "Pointer tracking of boost is modelled for objects saved through pointers only (by-value tracked std::vectors get no id token; "
+       "a by-value back reference shows up as token R and never occurs in an intact tree); "
        "allow-list entries marked NOTED-unprobed (BinaryLayer::m_baseRate, DropoutLayer, CMAChromosome::m_lastZ) are not claimed.",
   technique="Lean 4 proof over field lists, dependency lists and token codecs regenerated from the C++ by a translator + differential "
             "round-trip harness with a token-recording archive (ASan/UBSan)",
@@ -62,6 +75,17 @@ OBJECTS = {
     "HardClusteringModel": "ClusteringModel,AbstractClustering,Centroids", "SoftClusteringModel": "ClusteringModel,AbstractClustering,Centroids",
     "NearestNeighborModel": "BaseNearestNeighbor", "Ensemble": "EnsembleImpl,LinearModel",
     "BinaryRBM": "RBM,BinaryLayer", "GaussianBinaryRBM": "RBM,GaussianLayer,BinaryLayer",
+    "BinaryRBM-baserate": "RBM,BinaryLayer", "OneVersusOneClassifier": "OneVersusOneClassifier,Classifier,LinearModel",
+    # containers, result sets, operators, grid searches (serializable on their own)
+    "compressed_vector": "compressed_vector,BaseSparseVector,VectorStorage",
+    "cholesky_decomposition": "cholesky_decomposition,matrix", "symm_eigenvalue_decomposition": "symm_eigenvalue_decomposition,matrix,vector",
+    "KeyValuePair": "KeyValuePair", "ResultSet": "ResultSet", "ValidatedSingleObjectiveResultSet": "ValidatedSingleObjectiveResultSet,ResultSet",
+    "TypedFlags": "TypedFlags", "MultiNomialDistribution": "MultiNomialDistribution",
+    "AdditiveEpsilonIndicator": "AdditiveEpsilonIndicator", "CrowdingDistance": "CrowdingDistance", "NSGA3Indicator": "NSGA3Indicator",
+    "HypervolumeCalculator": "HypervolumeCalculator,HypervolumeApproximator",
+    "HypervolumeContribution": "HypervolumeContribution,HypervolumeContributionApproximator",
+    "BitflipMutator": "BitflipMutator", "UniformCrossover": "UniformCrossover", "UniformCrossover-default": "UniformCrossover", "PartiallyMappedCrossover": "PartiallyMappedCrossover",
+    "GridSearch": "GridSearch", "NestedGridSearch": "NestedGridSearch", "PointSearch": "PointSearch",
     # trainer-produced models
     "trained-Normalizer": "Normalizer", "trained-LDA": "Classifier,LinearModel", "trained-LinearRegression": "LinearModel",
     # kernels
@@ -121,6 +145,20 @@ def gen_ds(r, ctx=None, kind=None):
     return f"ds {kind} {fmt} {dim} {r.below(50)} " + " ".join(map(str, bs))
 
 
+SHR_VARIANTS = ["autoenc", "copy", "subset", "selfappend", "twolabeled"]
+
+
+def gen_shr(r, ctx=None, variant=None, kind=None, fmt=None):
+    """several objects sharing batch objects in ONE archive"""
+    variant = variant or r.choice(SHR_VARIANTS); kind = kind or r.choice(["dense", "sparse"]); fmt = fmt or r.choice(["text", "binary"])
+    dim = r.choice([1, 2, 3, 5])
+    bs = [r.choice([0, 1, 1, 2, 3, 4]) for _ in range(r.choice([0, 1, 1, 2, 3, 4]))]
+    if ctx:
+        ctx.hist("shared_variant", f"{variant}/{kind}/{fmt}"); ctx.hist("shared_batches", len(bs))
+        ctx.hist("shared_boundary", "no-batch" if not bs else "only-empty-batches" if sum(bs) == 0 else "single-batch" if len(bs) == 1 else "regular")
+    return f"shr {variant} {fmt} {kind} {dim} {r.below(50)} " + " ".join(map(str, bs))
+
+
 def gen_vec(r, ctx=None):
     n = r.choice([0, 0, 1, 2, 3, 5]); old = r.choice([0, 1, 3, 8])
     if ctx: ctx.hist("vec_saved_vs_target", f"{'empty' if n == 0 else 'one' if n == 1 else 'many'}-into-{'empty' if old == 0 else 'shorter' if old < n else 'longer' if old > n else 'equal'}")
@@ -157,12 +195,15 @@ FINDING_OF = {"ModelKernel": "F7-ModelKernel-read-signature",
               "ConcatenatedModel": "F10-ConcatenatedModel-read-into-copy",
               "ElitistCMA": "F-C18-4-ElitistCMA-best-not-archived",
               "SubrangeKernel": "F-C18-5-SubrangeKernel-subkernels-not-archived"}
+FINDING_LABEL = {"BinaryRBM-baserate": "F-C18-6-BinaryLayer-baserate-not-archived",
+                 "UniformCrossover-default": "F-C18-7-UniformCrossover-default-ctor-throws",
+                 "OneVersusOneClassifier": "F-C18-8-OneVersusOneClassifier-unregistered-class"}
 
 
 def classify(ops, res):
     t = ops[-1].split()
     base = t[1].split("-")[0] if t[0] == "obj" else t[1]
-    feat = FINDING_OF.get(base, base)
+    feat = FINDING_LABEL.get(t[1], FINDING_OF.get(base, base)) if t[0] == "obj" else base
     what_in = " ".join(t[:8])
     if res.crash:
         m = re.search(r"(?:ERROR|SUMMARY): AddressSanitizer: (\S+)|runtime error: ([^\n]*)", res.stderr)
@@ -211,6 +252,28 @@ def probe(ctx, name):
     return ok
 
 
+def deps_crosscheck(ctx):
+    """T3b: behaviour-dependency lists of the regex reader vs clang's AST member references (cached by source hash)"""
+    import hashlib, importlib.util
+    spec = importlib.util.spec_from_file_location("sdc", os.path.join(core.VERIF, "translate", "serial_deps_clang.py"))
+    sdc = importlib.util.module_from_spec(spec); spec.loader.exec_module(sdc)
+    h = hashlib.sha256()
+    for f in [os.path.join(core.REPO, rel) for rel, _ in sdc.TARGETS] + \
+             [os.path.join(core.VERIF, "translate", n) for n in ("serial_fields.py", "serial_deps_clang.py", "serial_transient.json")]:
+        h.update(core.file_sha(f).encode())
+    d = os.path.join(core.CACHE, "c18probe"); os.makedirs(d, exist_ok=True)
+    key = os.path.join(d, "deps-" + h.hexdigest()[:16])
+    if os.path.exists(key):
+        ctx.log("serial_deps_clang.py (cached): " + open(key).read().strip())
+        ctx.cov["deps_clang_crosscheck"] = open(key).read().strip()
+        return True
+    ok = ctx.translate("serial_deps_clang.py", "--inc", ctx.shark_h())
+    if ok:
+        line = [l for l in ctx.log_lines if "clang cross-check:" in l][-1].split("clang cross-check:")[-1].strip()
+        open(key, "w").write(line); ctx.cov["deps_clang_crosscheck"] = line
+    return ok
+
+
 def build(ctx):
     flags = ["-I" + core.REPO]
     ctx.c18_probes = {n: probe(ctx, n) for n in PROBES}
@@ -234,6 +297,7 @@ def coverage(ctx, cases):
             if t[-1] == "PROBE-FAILS": continue
             reached.update(t[3].split(","))
         elif t[0] == "ds": reached.update(DS_KINDS.get(t[1], "").split(","))
+        elif t[0] == "shr": reached.update((DATA + ",LabeledData,matrix,compressed_matrix").split(","))
         elif t[0] == "vec": reached.add("vector")
     reached &= set(found)
     missing = sorted(set(found) - reached)
@@ -256,13 +320,14 @@ def run(ctx):
     ctx.assumptions += ["the target object is of the same type, wired to equivalent external objects (kernels, sub-models, objective "
                         "function via init(), random number generator) and configured by the same constructor arguments — allow-list categories external/config",
                         "optimizer state is restored into an optimizer that was init()-ialised on the same objective (from another point, and stepped)"]
-    translate(ctx)
+    ok_t = translate(ctx)
+    ok_t = deps_crosscheck(ctx) and ok_t
     ctx.prove(["SharkVerif.Gen.Serial", "SharkVerif.Gen.SerialCodec", "SharkVerif.Props.C18"])
     if not ctx.quick:
         ctx.leanchecker(["SharkVerif.Props.C18"])
     exe = build(ctx)
-    drv = ctx.driver("drv_c18")
-    if not exe or not drv:
+    drv = ctx.driver("drv_c18") if ok_t and not any(not b_.get("resolved") for b_ in ctx.breaks) else None
+    if not exe:
         return
     skip = set()
     for name, ok in ctx.c18_probes.items():
@@ -282,13 +347,27 @@ def run(ctx):
             for bs in ("", "0", "1", "0 0", "0 2 0", "1 1", "3 0 1"):
                 cases.append([f"ds {kind} {fmt} {r.choice([0, 1, 2, 3])} {r.below(50)} {bs}".strip()])
     cases += [[gen_ds(r, ctx)] for _ in range(nds)]
+    # shared batch objects inside one archive: every variant x element kind x format on fixed batch structures, then random
+    for variant in SHR_VARIANTS:
+        for kind in ("dense", "sparse"):
+            for fmt in ("text", "binary"):
+                for bs in ("2 1", "1", "3 0 2", ""):
+                    cases.append([f"shr {variant} {fmt} {kind} {r.choice([1, 2, 3])} {r.below(50)} {bs}".strip()])
+    cases += [[gen_shr(r, ctx)] for _ in range(100 if ctx.quick else 4000)]
     cases += [[gen_vec(r, ctx)] for _ in range(40 if ctx.quick else 2000)]
     cases += [[f"wrap {r.choice(['text', 'binary'])} {r.choice([0, 1, 2, 5])} {r.below(20)}"] for _ in range(10 if ctx.quick else 300)]
     ctx.cov["evaluations"] = len(cases)
     ctx.cov["distinct_nontrivial"] = len({c[0] for c in cases if c[0].startswith("obj") or len(c[0].split()) >= 7})
     ctx.sample({"ops": [cases[0][0], cases[len(cases) // 2][0], cases[-1][0]]})
     coverage(ctx, cases)
-    core.correspond(ctx, "K-C18", cases, [exe], [drv], classify, env=ENV, keep_prefix=0, max_report=8, timeout=1800)
+    if drv:
+        core.correspond(ctx, "K-C18", cases, [exe], [drv], classify, env=ENV, keep_prefix=0, max_report=8, timeout=1800)
+    else:
+        # the translator rejected its source, a regenerated obligation failed or the driver no longer builds: the tie is
+        # broken, but the harness and its independent oracle do not need the model — search the implementation alone
+        # for a CONCRETE failing input (datasets and shared-batch archives first: they are the cheapest)
+        order = sorted(cases, key=lambda c: {"shr": 0, "ds": 1, "vec": 2, "wrap": 3}.get(c[0].split()[0], 4))
+        core.oracle_only(ctx, "K-C18[oracle-only]", order, [exe], classify, env=ENV, max_report=6, timeout=900)
 
 
 def replay(ctx, rep):
